@@ -7,20 +7,26 @@ From PF Require Import Geom.Vec Geom.AlgebraSpec.
 From PFGen Require Aabb.
 Local Open Scope R_scope.
 
+(* everything (generated code with whatever helpers it uses, specifications, vector prelude) down to the carrier
+   operations, in the goal and in every hypothesis; then expose the operations of R *)
 Ltac aabb_unfold :=
-  unfold Aabb.AABB_Contains, Aabb.AABB_EncapsulateBounds, Aabb.AABB_EncapsulatePoint, Aabb.AABB_SetMinMax,
-    Aabb.AABB_ClosestPoint, Aabb.clamp, Aabb.minVector, Aabb.maxVector, Aabb.AABB_Min, Aabb.AABB_Max,
-    Aabb.AABB_Center, Aabb.NewAABB, Aabb.AABB_Size, Aabb.AABB_Expand, box_lo, box_hi, in_box, dist2 in *;
-  cbv zeta in *; cbn [Aabb.AABB_center Aabb.AABB_extents] in *;
-  vec_unfold; vec_unfold; cbn [Aabb.AABB_center Aabb.AABB_extents v3x v3y v3z] in *; carrier_R.
+  repeat match goal with H : _ |- _ => progress (gen_full_in H) end; gen_full; carrier_R.
 Ltac box_destruct b := destruct b as [[cx cy cz] [ex ey ez]].
 Ltac split_ltb :=
   repeat match goal with
   | |- context [Rltb ?a ?b] =>
       let E := fresh "E" in destruct (Rltb a b) eqn:E; [apply Rltb_true in E | apply Rltb_false in E]
   end.
-Ltac split_dec := repeat match goal with |- context [Rle_dec ?a ?b] => destruct (Rle_dec a b) end.
-Ltac split_minmax := unfold Rmax in *; split_dec; unfold Rmin in *; split_dec.
+(* innermost decisions first, so that no hypothesis ever contains an [if] *)
+Ltac split_dec :=
+  repeat match goal with
+  | |- context [Rle_dec ?a ?b] =>
+      lazymatch a with
+      | context [Rle_dec _ _] => fail
+      | _ => lazymatch b with context [Rle_dec _ _] => fail | _ => destruct (Rle_dec a b) end
+      end
+  end.
+Ltac split_minmax := unfold Rmax, Rmin in *; split_dec.
 
 Lemma v3_eqR (a0 a1 a2 b0 b1 b2 : R) : a0 = b0 -> a1 = b1 -> a2 = b2 -> mkV3 a0 a1 a2 = mkV3 b0 b1 b2.
 Proof. intros; subst; reflexivity. Qed.
@@ -92,16 +98,9 @@ Theorem encapsulate_bounds_contains (b c : Aabb.AABB R) (q : vec3 R) :
   (Aabb.AABB_Contains c q = true -> Aabb.AABB_Contains (Aabb.AABB_EncapsulateBounds b c) q = true) /\
   (Aabb.AABB_Contains b q = true -> Aabb.AABB_Contains (Aabb.AABB_EncapsulateBounds b c) q = true).
 Proof.
-  unfold Aabb.AABB_EncapsulateBounds. cbv zeta.
-  set (lo := v3_sub (Aabb.AABB_center c) (Aabb.AABB_extents c)).
-  set (hi := v3_add (Aabb.AABB_center c) (Aabb.AABB_extents c)).
-  set (b1 := Aabb.AABB_EncapsulatePoint b lo). set (b2 := Aabb.AABB_EncapsulatePoint b1 hi).
-  split; intros H; apply contains_iff; apply contains_iff in H.
-  - apply (in_box_convex _ _ lo hi).
-    + unfold b2. apply in_box_grow. apply in_box_self.
-    + apply in_box_self.
-    + exact H.
-  - unfold b2. apply in_box_grow. unfold b1. apply in_box_grow. exact H.
+  split; intros H; apply contains_iff; apply contains_iff in H;
+    box_destruct b; destruct c as [[dx dy dz] [fx fy fz]]; destruct q as [q1 q2 q3]; aabb_unfold;
+    repeat split; split_minmax; lra.
 Qed.
 
 (* ClosestPoint lies in the box (boxes with non-negative extents, i.e. lo <= hi) *)
